@@ -173,3 +173,35 @@ func VerifC14_CapacityErrorsDelete() {
 		verifrt.Assert(!tried, "other launch errors are retried, the NodeClaim is kept")
 	}
 }
+
+// Registration that does not complete in a reconcile (the node write fails) never lets the NodeClaim be Initialized,
+// also when the node joined Ready and without the unregistered taint.
+func VerifC14_InitializedNeverBeforeRegistered() {
+	e := lcSetup()
+	e.cp.Faults = map[string]bool{}
+	e.kc.Faults = map[string]bool{"patch:Node": true, "update:Node": true}
+	e.kc.FaultMax = stubs.FaultConflict
+	for r := 0; r < 3; r++ {
+		e.reconcile()
+		stored := e.kc.StoredClaim("nc-1")
+		launched, registered, initialized := lcCond(stored, v1.ConditionTypeLaunched), lcCond(stored, v1.ConditionTypeRegistered), lcCond(stored, v1.ConditionTypeInitialized)
+		verifrt.Assert(!registered || launched, "Registered is true only after Launched")
+		verifrt.Assert(!initialized || registered, "Initialized is true only after Registered")
+		if node := e.kc.StoredNode("node-1"); node != nil && !registered {
+			verifrt.Assert(node.Labels[v1.NodeInitializedLabelKey] != "true", "a node is not labelled initialized before its NodeClaim is Registered")
+		}
+		if registered {
+			verifrt.Reach("registered")
+		}
+		// the kubelet joins as soon as the instance exists: Ready, and (as some providers do) without the unregistered taint
+		if id := e.providerID(); id != "" && e.kc.StoredNode("node-1") == nil {
+			n := stubs.Node("node-1", id, corev1.ConditionTrue)
+			delete(n.Labels, v1.NodePoolLabelKey)
+			if verifrt.Choice("joinsWithUnregisteredTaint", 0, 1) == 1 {
+				n.Spec.Taints = []corev1.Taint{v1.UnregisteredNoExecuteTaint}
+			}
+			e.kc.Nodes = append(e.kc.Nodes, n)
+			verifrt.Reach("node-joined")
+		}
+	}
+}
